@@ -408,7 +408,7 @@ ENABLED = (["mk_block", "mk_section", "mk_section", "mk_prop", "mk_group", "mk_a
 
 @st.composite
 def case_strategy(draw, max_ops):
-    prog = draw(ops.program(ENABLED, min_size=4, max_size=max_ops, name_pool=["a", "b", "c"]))
+    prog = draw(ops.program(ENABLED, min_size=max(4, max_ops // 2), max_size=max_ops, name_pool=["a", "b", "c"]))
     sn = special_names()
     out = []
     for op in prog:
